@@ -2,7 +2,7 @@
 from ..rules_tables import Tables, grammar, T5_T6_cost_depth
 from ..rules_flow import Flow, P6_conservation
 from ..rules_gate import K1_loader, K2_reader
-from ..rules_ni import NI1_sign_independence
+from ..rules_ni import NI1_sign_independence, class_id_roots
 
 APIS = ["stabilizer_circuits.get_preparation_circuit", "stabilizer_circuits.get_readout_circuit", "stabilizer_circuits.compress_preparation_circuit"]
 
@@ -17,7 +17,7 @@ def run(tree, rep, tier):
     K1_loader(rep, flow, T, tier)
     K2_reader(rep, flow)
     P6_conservation(rep, flow, APIS, tables=T)
-    NI1_sign_independence(rep, flow)
+    NI1_sign_independence(rep, flow, roots=class_id_roots(flow), what="the class-id computation (classifier)")
     rep.trusted += ["Q1", "Q2", "Q3", "Q4"]
     rep.decided += ["cost/depth columns of every stabilizer line equal the counted/scheduled values (T5, T6)",
                     "metadata fields are read from the documented columns of the same line the circuit is parsed from (K2), token by token (K1)",
